@@ -192,7 +192,7 @@ def inline_helpers(P, caller_name, pred, depth=3, replace=True):
     return done
 
 
-def normalise(P, max_sites=1, max_size=400, depth=4, only_files=None, one_caller=False, keep=()):
+def normalise(P, max_sites=1, max_size=400, depth=4, only_files=None, one_caller=False, keep=(), only_new=None):
     """canonical form for helper-extraction / helper-inlining refactorings: every static, non-recursive, not address-taken function of at
     most max_size instructions that is called from at most max_sites places is inlined into its callers (bottom-up, bounded depth) and,
     once no call to it is left, dropped from the program.  Returns {caller: [inlined helpers]}."""
@@ -228,6 +228,8 @@ def normalise(P, max_sites=1, max_size=400, depth=4, only_files=None, one_caller
             if len(ss) > max_sites or sum(len(b.insts) for b in g.blocks) > max_size or name in keep:
                 continue
             if only_files is not None and g.relfile not in only_files:
+                continue
+            if only_new is not None and name in only_new:
                 continue
             if one_caller and len({cf.name for cf, ci in ss}) != 1:
                 continue
